@@ -291,7 +291,7 @@ def main():
             if len(samples) < 3 and len(lines) > 3:
                 samples.append({"list": repr(j.L), "alloc_kind": list(j.K), "script": lines[:12]})
             # the property oracle runs on the implementation's own observations
-            ov = oracles.check(prop, j.L, j.K, lines, il, expect)
+            ov = oracles.check(prop, j.L, j.K, lines, ib.get(sid, ["<missing>"]), expect)
             d = first_diff(il, ml)
             if d is not None:
                 stats["disagreements"] += 1
